@@ -341,6 +341,29 @@ def check_C13(tier):
         p = vlib.harness(["msg", i, shards, "--tier", tier, "--seed", vlib.seed(), "--out", path])
         return path, vlib.last_json(p.stdout)
     logs = vlib.parallel([(lambda i=i: gen(i)) for i in range(shards)], nproc=8)
+    # S2: TLC enumerates a universe of well-formed messages (Gen_Msg.tla) and prints each reference body
+    cfg = os.path.join(wd, "Gen_Msg.cfg")
+    vlib.write_cfg(cfg, spec="GenSpec", invariants=["Sound", "Aliases", "Emit"])
+    g = vlib.tlc("Gen_Msg.tla", cfg, wd, workers=4, timeout=900, xss="512m", xmx="6g")
+    if g.get("timeout") or not g["completed"] or g["violated"]:
+        log(g["out"][-2000:])
+        raise ToolError("S2 generation Gen_Msg failed (%s)" % (g["violated"] or "incomplete"))
+    msgs = [json.loads(line)[len("@@MSG|"):] for line in g["out"].splitlines() if line.startswith('"@@MSG|')]
+    mfile = os.path.join(wd, "Gen_Msg.ndjson")
+    with open(mfile, "w") as f:
+        f.write("\n".join(msgs) + "\n")
+
+    def gen2(i):
+        path = os.path.join(wd, "msg_gen_%d.ndjson" % i)
+        p = vlib.harness(["msg", "gen", i, shards, mfile, "--out", path])
+        return path, vlib.last_json(p.stdout)
+    glogs = vlib.parallel([(lambda i=i: gen2(i)) for i in range(shards)], nproc=8)
+    out.cov["s2"] = {"model": "Gen_Msg", "universe": g["distinct"], "bodies_replayed": len(msgs),
+                     "design_invariants": "Sound, Aliases held on the whole universe",
+                     "cases_on_real_code": sum(i.get("cases", 0) for _, i in glogs)}
+    if len(msgs) < 300:
+        raise ToolError("S2 generation Gen_Msg: too few messages (%d)" % len(msgs))
+    logs = logs + glogs
     res = vlib.parallel([(lambda pth=pth: vlib.validate_trace("Trace_Msg.tla", pth, wd, {})) for pth, _ in logs], nproc=8)
     for (pth, info), r in zip(logs, res):
         out.add_trace(r, runs=info.get("runs", 0))
